@@ -72,9 +72,10 @@ func (m *mrtWriter) dumpTable() []*mrt.MRTMessage {
 			return p.index
 		}
 		newIdx := uint16(len(peermap))
-		if p.GetSource().Address == netip.IPv4Unspecified() {
-			// Adding dummy Peer record for locally generated routes
-			peermap[netip.IPv4Unspecified()] = dumpPeer{
+		if a := p.GetSource().Address; !a.IsValid() || a == netip.IPv4Unspecified() {
+			// Adding dummy Peer record for locally generated routes (their
+			// source has no address: the zero netip.Addr, not 0.0.0.0)
+			peermap[a] = dumpPeer{
 				index: newIdx,
 				addr:  netip.IPv4Unspecified(),
 				id:    netip.IPv4Unspecified(),
@@ -85,6 +86,7 @@ func (m *mrtWriter) dumpTable() []*mrt.MRTMessage {
 				index: newIdx,
 				addr:  p.GetSource().Address,
 				id:    p.GetSource().ID,
+				as:    p.GetSource().AS,
 			}
 		}
 		return newIdx
